@@ -45,7 +45,7 @@ def run(ctx):
             broken.append("coqchk rejects Props/C06.vo: " + cout[-800:])
     if not proofs["ok"]:
         broken.append("proof obligations of Props/C06.v do not check: %s" % (proofs.get("broken_files") or proofs.get("nonstd_axioms") or proofs["log"][-1200:]))
-    h = vf.go_harness(ctx, "index", "TestVerifC06$", ["index/zz_verif_c06_test.go"], ctx.n(1000, 12000),
+    h = vf.go_harness(ctx, "index", "TestVerifC06$", ["index/zz_verif_c06_test.go"], ctx.n(1000, 8000),
                       timeout=600 if ctx.tier == "quick" else 3000)
     if h["rc"] != 0:
         broken.append("harness TestVerifC06 failed (rc=%d): %s" % (h["rc"], h["log"][-1500:]))
@@ -55,7 +55,7 @@ def run(ctx):
             failures.append(dict(key=r.get("key", "?"), what=r.get("what", ""), replay=r.get("replay")))
     ev = dict(ok=True, bad=[], evaluated=0, log="")
     if cases:
-        ev = c07.par_eval(ctx, "C06", IMPORTS, "c06case", "c06_mismatches", [c["coq"] for c in cases], shard=400)
+        ev = c07.par_eval(ctx, "C06", IMPORTS, "c06case", "c06_mismatches", [c["coq"] for c in cases], shard=150)
         if not ev["ok"]:
             broken.append("model evaluation failed: " + ev["log"][-1500:])
         for i in ev["bad"][:20]:
